@@ -400,6 +400,38 @@ func pathOrders(r *mon.Run, w *world, origPath string, ui *plugin.ClientUI, file
 		// (the sentinel logs the path it was created under, so the link shows up as B's program)
 		po{"symlink-to-B-first,A", linked + ":" + w.dA, b},
 	)
+	// PATH elements in the spelling of a shell or another system, which the
+	// search takes literally: an unexpanded ~ or $HOME (with the program lying
+	// in the home directory they would expand to), quoted elements, Windows
+	// separators. Nothing outside a real absolute match may start.
+	home := mkdir("home")
+	w.sentinel(filepath.Join(home, "bin"), "zz")
+	w.sentinel(home, "zz")
+	w.sentinel(filepath.Join(home, ".local", "bin"), "zz")
+	oldHome, hadHome := os.LookupEnv("HOME")
+	os.Setenv("HOME", home)
+	defer func() {
+		if hadHome {
+			os.Setenv("HOME", oldHome)
+		} else {
+			os.Unsetenv("HOME")
+		}
+	}()
+	orders = append(orders,
+		po{"tilde-bin", "~/bin", "NONE"},
+		po{"tilde", "~", "NONE"},
+		po{"tilde-slash", "~/", "NONE"},
+		po{"tilde-local-bin,empty-dir", "~/.local/bin:" + onlyB, "NONE"},
+		po{"dollar-HOME-bin", "$HOME/bin", "NONE"},
+		po{"braced-HOME-bin", "${HOME}/bin", "NONE"},
+		po{"percent-HOME-bin", "%HOME%/bin", "NONE"},
+		po{"tilde-user-bin", "~root/bin", "NONE"},
+		po{"quoted-A", `"` + w.dA + `"`, "NONE"},
+		po{"semicolon-separated", onlyB + ";" + w.dA, "NONE"},
+		po{"tilde-bin,A", "~/bin:" + w.dA, a},
+		po{"A,tilde-bin", w.dA + ":~/bin", a},
+		po{"dollar-HOME-bin,B", "$HOME/bin:" + w.dB, b},
+	)
 	for _, o := range orders {
 		os.Setenv("PATH", o.path+":"+origPath)
 		w.clear()
